@@ -6,8 +6,8 @@
    schema are exactly as before" is Leibniz equality of `doc` (tables, Column objects and engine.schema). *)
 From stdpp Require Import gmap.
 Require Import Grist.Model.Rollback Grist.Proofs.Rollback_proofs Grist.Proofs.Rollback_run Grist.Proofs.Rollback_inside
-  Grist.Proofs.Rollback_flush Grist.Proofs.Rollback_calc Grist.Proofs.Rollback_calc_multi Grist.Proofs.Rollback_calc_rows Grist.Proofs.Rollback_schema Grist.Proofs.Rollback_usable
-  Grist.Proofs.Rollback_witness.
+  Grist.Proofs.Rollback_flush Grist.Proofs.Rollback_calc Grist.Proofs.Rollback_calc_multi Grist.Proofs.Rollback_calc_rows Grist.Proofs.Rollback_calc_removes Grist.Proofs.Rollback_schema Grist.Proofs.Rollback_usable
+  Grist.Proofs.Rollback_witness Grist.Proofs.Rollback_bounded.
 Open Scope Z_scope.
 
 (* what the except branch of apply_user_actions computes after a crash before micro-step k of the bundle es *)
@@ -207,6 +207,51 @@ Proof.
   - repeat constructor; simpl; set_solver.
   - vm_compute. repeat split; reflexivity.
 Qed.
+
+(* ... and in bundles that also REMOVE records: the recomputed cells of checkpoint rows that are gone at the crash are
+   restored by updates inserted at the FRONT of the undo list (they run last, after the undo of the BulkRemoveRecord
+   has re-added the rows with the values it captured), those of rows still there by appended updates, those of rows
+   added in the bundle by neither.  Hypothesis (narrowest found): rows are only added under ids the checkpoint table
+   does not have -- a removed row id coming back in the same bundle is REFUTED (C04_refuted_readded_row).
+   Any number and order of updates / adds / removes / recomputations of the columns CC, every event boundary. *)
+Theorem C04_pending_calcs_with_removes_rolled_back :
+  forall ord (s : doc) (CC : list (name * name)) (es : list event) (k : nat) st cur,
+  wf s -> Forall (upd_add_rem_or_calc_in s CC) es ->
+  run_until_crash ord (init_state s []) es k = Crashed st cur [] ->
+  reverted ord s es k st = Some s.
+Proof. intros ord s CC es k st cur Hw. exact (pending_calcs_with_removes_rolled_back ord s Hw CC es k st cur). Qed.
+
+Example C04_pending_calcs_with_removes_nonvacuous :
+  let es := [EDoc (UpdateRecord T 2 [(A, 10)]); ECalc T B [(2, 20); (1, 3)]; EDoc (RemoveRecord T 2);
+             EDoc (AddRecord T 3 [(A, 5)]); ECalc T B [(3, 10)]; EDoc (RemoveRecord T 3)] in
+  Forall (upd_add_rem_or_calc_in w_doc [(T, B)]) es /\
+  (* after the remove of the recomputed checkpoint row 2 (front insertion), and at the end *)
+  forallb (fun k => match run_until_crash w_ord (init_state w_doc []) es k with
+                    | Crashed st _ [] =>
+                        bool_decide (reverted w_ord w_doc es k st = Some w_doc) &&
+                        negb (bool_decide (rollback w_ord 0 st = Some w_doc)) &&
+                        bool_decide (fst (flush_undo (sum_log (run_log w_ord (init_state w_doc []) es k))) ≠ [])
+                    | _ => false end) [11; 15; 17; 23]%nat = true.
+Proof.
+  split.
+  - assert (Hnew : forall r, r ∈ [3] -> ~ oldrow w_doc T r).
+    { intros r Hr (rows0 & H0 & Hin). apply elem_of_list_singleton in Hr. subst r.
+      assert (Hrows : drows w_doc T = Some {[1; 2]}) by (apply (bool_decide_unpack _); vm_compute; exact I).
+      rewrite Hrows in H0. injection H0 as <-. set_solver. }
+    repeat (apply Forall_cons; split); try apply Forall_nil; unfold upd_add_rem_or_calc_in; simpl; try set_solver.
+  - vm_compute. reflexivity.
+Qed.
+
+(* Pending calc deltas combined with column / table renames and removals between the recalculation and the crash
+   (front insertion under the ORIGINAL names, defunct columns and tables): no general proof; checked exhaustively by
+   computation on the witness document for every bundle [UpdateRecord T 2 {A:10}; recalculation of B[2]] followed by
+   up to two events out of 21 (rename / remove / re-create the recomputed column or its table, rename them back,
+   recalculate under the new names, add / remove rows, other columns), and by three out of the 12 that touch the
+   recomputed column or its table: every event boundary is reverted, except [.. RemoveRecord T 2; AddRecord T 2 ..]
+   (C04_refuted_readded_row). *)
+Theorem C04_schema_actions_after_calc_bounded :
+  b_bad b_seqs1 = [] /\ b_bad b_seqs2 = [([6; 20], [14])]%nat /\ b_bad b_seqs3s = [].
+Proof. exact (conj bounded_one_followup (conj bounded_two_followups bounded_three_followups)). Qed.
 
 (* "The engine stays usable: a following Calculate emits no changes."  For any formula semantics `eval` that is a
    function of the document alone (no clock / randomness / evaluation-order or cache dependence), if before the
